@@ -291,8 +291,12 @@ func (e *SpecEnv) eval(x ast.Expr) Term {
 		if t == nil {
 			return e.fail("unknown type in type assertion")
 		}
+		if a.T != nil && isEmptyInterface(a.T) && !types.IsInterface(t) {
+			// dynamic value of an `any`: payload accessor (no check; combine with typeis(x, T))
+			return Term{S: fmt.Sprintf("(%s %s)", u.anyPayloadFn(t), a.S), T: t}
+		}
 		if _, ok := t.Underlying().(*types.Pointer); !ok || u.c.sortOf(a.T) != "Int" {
-			return e.fail("contract type assertions are supported only from non-empty interfaces to pointer types")
+			return e.fail("contract type assertions are supported only from non-empty interfaces to pointer types, or from `any` to a concrete type")
 		}
 		return Term{S: a.S, T: t}
 	}
@@ -441,6 +445,44 @@ func (e *SpecEnv) call(x *ast.CallExpr) Term {
 			return Term{S: or(eq(a.S, b.S), fmt.Sprintf("(errwraps %s %s)", a.S, b.S)), T: types.Typ[types.Bool]}
 		case "unfold":
 			return e.unfold(x)
+		case "typeis":
+			// typeis(x, T): the dynamic type of the `any` value x is T; typeis(x, nil): x is the nil interface
+			a := e.eval(x.Args[0])
+			if a.T == nil || !isEmptyInterface(a.T) {
+				return e.fail("typeis() needs a value of type any")
+			}
+			if id2, ok := x.Args[1].(*ast.Ident); ok && id2.Name == "nil" {
+				return Term{S: eq("(any.tag "+a.S+")", "0"), T: types.Typ[types.Bool]}
+			}
+			t := e.resolveType(x.Args[1])
+			if t == nil {
+				return e.fail("typeis(): unknown type")
+			}
+			return Term{S: eq("(any.tag "+a.S+")", fmt.Sprint(u.typeTag(t))), T: types.Typ[types.Bool]}
+		case "has":
+			// has(m, k): key k is present in map m
+			m := e.eval(x.Args[0])
+			mt, ok := m.T.Underlying().(*types.Map)
+			if !ok {
+				return e.fail("has() needs a map")
+			}
+			k := u.coerceSpec(e.eval(x.Args[1]), mt.Key())
+			k.T = mt.Key()
+			_, present := u.mapLookup(e.curState(), m, k, mt)
+			return Term{S: present, T: types.Typ[types.Bool]}
+		case "chanlen", "chanat":
+			// ghost sequence of the values received from a channel (see execRangeChan)
+			a := e.eval(x.Args[0])
+			ct, ok := a.T.Underlying().(*types.Chan)
+			if !ok {
+				return e.fail("%s needs a channel", id.Name)
+			}
+			ln, at := u.chanGhost(ct.Elem())
+			if id.Name == "chanlen" {
+				return Term{S: "(" + ln + " " + a.S + ")", T: types.Typ[types.Int]}
+			}
+			i := e.eval(x.Args[1])
+			return Term{S: fmt.Sprintf("(%s %s %s)", at, a.S, u.toIdxSpec(i)), T: ct.Elem()}
 		case "written", "consumed":
 			// ghost byte counters of a writer / reader
 			a := e.eval(x.Args[0])
